@@ -197,6 +197,16 @@ func genShutdownIR(repo string) (genFile, error) {
 	}
 	fmt.Fprintf(&b, "/-- every assignment to a template cache variable (mCache…) in package vflow: (function, statement) -/\ndef cacheWriters : List (String × String) := [%s]\n\n", strings.Join(writers, ", "))
 	fmt.Fprintf(&b, "/-- every use of a loaded flag (mCache…Loaded) in package vflow: (function, the call it is passed to by address), or a description of any other use -/\ndef loadedFlagUses : List (String × String) := [%s]\n\n", strings.Join(flagUses, ", "))
+	// which decoder package each listener decodes with, and the option that switches the listener on (F34)
+	var switches []string
+	for _, sw := range shutdownSrcs {
+		fset, f, err := parseFile(repo, sw.file)
+		if err != nil {
+			return genFile{}, err
+		}
+		switches = append(switches, decoderSwitch(fset, f, sw.file, sw.recv))
+	}
+	fmt.Fprintf(&b, "/-- per listener of package vflow: (directory of the package whose decoder its workers construct, the option that the first\n    statement of its run() after the declarations tests — `if !opts.<option> { log; return }`) -/\ndef decoderSwitches : List (String × String) := [%s]\n\n", strings.Join(switches, ", "))
 	// main(): what happens around the signal
 	fset, f, err := parseFile(repo, "vflow/vflow.go")
 	if err != nil {
@@ -207,12 +217,39 @@ func genShutdownIR(repo string) (genFile, error) {
 		for _, st := range fd.Body.List {
 			t := src(fset, st)
 			switch {
-			case strings.HasPrefix(t, "var ("), strings.HasPrefix(t, "opts = GetOptions()"), strings.HasPrefix(t, "runtime.GOMAXPROCS("),
-				strings.HasPrefix(t, "logger = "), strings.HasPrefix(t, "if !opts.ProducerEnabled"), strings.HasPrefix(t, "protos := []proto{"):
-				// set-up, no synchronisation
-			case t == `if opts.IPFIXEnabled { if err := ipfix.LoadExtElements(opts.VFlowConfigPath); err != nil { logger.Println("load.ext.elements:", err) } }`:
-				// the information model shared by the IPFIX and NetFlow v9 decoders is replaced here
+			case reSigChan.MatchString(t):
+				// the channel the signals are relayed to, and its capacity: package os/signal does not block when it relays a
+				// signal, so one that arrives while nobody receives is kept only if the channel has room for it
+				msteps = append(msteps, ".makeSignalChan "+reSigChan.FindStringSubmatch(t)[1])
+			case t == "var ( wg sync.WaitGroup signalCh = make(chan os.Signal) )":
+				msteps = append(msteps, ".makeSignalChan 0")
+			case t == "opts = GetOptions()":
+				// the options phase (F32): flags, configuration file, pid-file test (may fork `kill -0`), pid-file write
+				msteps = append(msteps, ".getOptions")
+			case reSetUp.MatchString(t):
+				// set-up without synchronisation: listed (not omitted), so that its position relative to signal.Notify shows
+				msteps = append(msteps, ".setUp")
+			case t == loadElementsCall:
+				// the information model shared by the IPFIX and NetFlow v9 decoders is replaced here, unconditionally
 				msteps = append(msteps, ".loadElements")
+			case reLoadElemsIf.MatchString(t):
+				// … under a guard (F34): the options whose disjunction the guard is, in source order; anything else in the
+				// condition is not recognised
+				m := reLoadElemsIf.FindStringSubmatch(t)
+				var gs []string
+				for _, term := range strings.Split(m[1], " || ") {
+					if g := reOptEnabled.FindStringSubmatch(term); g != nil {
+						gs = append(gs, leanStr(g[1]))
+					} else {
+						gs = nil
+						break
+					}
+				}
+				if gs == nil {
+					msteps = append(msteps, ".unrecognised "+leanStr(t))
+				} else {
+					msteps = append(msteps, ".loadElementsIf ["+strings.Join(gs, ", ")+"]")
+				}
 			case t == "signal.Notify(signalCh, syscall.SIGINT, syscall.SIGTERM)":
 				msteps = append(msteps, ".notifySigintSigterm")
 			case t == "for _, p := range protos { wg.Add(1) go func(p proto) { defer wg.Done() p.run() }(p) }":
@@ -232,9 +269,77 @@ func genShutdownIR(repo string) (genFile, error) {
 	} else {
 		msteps = []string{`.unrecognised "main missing"`}
 	}
-	fmt.Fprintf(&b, "/-- main() of vflow/vflow.go (set-up statements without synchronisation omitted) -/\ndef mainSteps : List MStep := [%s]\n", strings.Join(msteps, ", "))
+	fmt.Fprintf(&b, "/-- main() of vflow/vflow.go, every statement (`.setUp`: a statement that synchronises with nothing) -/\ndef mainSteps : List MStep := [%s]\n", strings.Join(msteps, ", "))
 	b.WriteString(footer("ShutdownIR"))
 	return genFile{"ShutdownIR", b.String()}, nil
+}
+
+// main(): the call that replaces the shared information model, and the guard it may stand under
+const loadElementsCall = `if err := ipfix.LoadExtElements(opts.VFlowConfigPath); err != nil { logger.Println("load.ext.elements:", err) }`
+
+var (
+	reLoadElemsIf = regexp.MustCompile(`^if (.+) \{ ` + regexp.QuoteMeta(loadElementsCall) + ` \}$`)
+	reOptEnabled  = regexp.MustCompile(`^opts\.(\w+Enabled)$`)
+	reRunGuard    = regexp.MustCompile(`^if !opts\.(\w+Enabled) \{ logger\.Println\("[^"]*"\) return \}$`)
+	reNewDecoder  = regexp.MustCompile(`^New\w*Decoder$`)
+)
+
+var (
+	// main(): the declaration block with the signal channel; the set-up statements that synchronise with nothing
+	reSigChan = regexp.MustCompile(`^var \( wg sync\.WaitGroup signalCh = make\(chan os\.Signal, (\d+)\) \)$`)
+	reSetUp   = regexp.MustCompile(`^(runtime\.GOMAXPROCS\(opts\.getCPU\(\)\)|logger = opts\.Logger|if !opts\.ProducerEnabled \{ logger\.Println\("[^"]*"\) \}|protos := \[\]proto\{NewSFlow\(\), NewIPFIX\(\), NewNetflowV5\(\), NewNetflowV9\(\)\})$`)
+)
+
+// decoderSwitch: the Lean pair (decoder package directory, enabling option) of one listener file; whatever is not found exactly
+// once becomes a text no obligation accepts
+func decoderSwitch(fset *token.FileSet, f *ast.File, file, recv string) string {
+	imports := map[string]string{}
+	for _, im := range f.Imports {
+		path := strings.Trim(im.Path.Value, "\"")
+		name := path[strings.LastIndex(path, "/")+1:]
+		if im.Name != nil {
+			name = im.Name.Name
+		}
+		imports[name] = path
+	}
+	pkgs := map[string]bool{}
+	ast.Inspect(f, func(n ast.Node) bool {
+		if c, ok := n.(*ast.CallExpr); ok {
+			if sel, ok := c.Fun.(*ast.SelectorExpr); ok && reNewDecoder.MatchString(sel.Sel.Name) {
+				if id, ok := sel.X.(*ast.Ident); ok {
+					if path, ok := imports[id.Name]; ok && strings.HasPrefix(path, "github.com/EdgeCast/vflow/") {
+						pkgs[strings.TrimPrefix(path, "github.com/EdgeCast/vflow/")] = true
+					} else {
+						pkgs["!unrecognised decoder package "+id.Name] = true
+					}
+				}
+			}
+		}
+		return true
+	})
+	var ps []string
+	for p := range pkgs {
+		ps = append(ps, p)
+	}
+	sort.Strings(ps)
+	pkg := strings.Join(ps, " + ")
+	if len(ps) != 1 {
+		pkg = fmt.Sprintf("!unrecognised: %d decoder packages in %s: %s", len(ps), file, pkg)
+	}
+	opt := "!unrecognised: " + recv + ".run does not begin (after its declarations) with `if !opts.<X>Enabled { log; return }`"
+	if rd := funcDecl(f, recv, "run"); rd != nil {
+		// the first statement that is not a declaration
+		for _, st := range rd.Body.List {
+			if _, ok := st.(*ast.DeclStmt); ok {
+				continue
+			}
+			if m := reRunGuard.FindStringSubmatch(src(fset, st)); m != nil {
+				opt = m[1]
+			}
+			break
+		}
+	}
+	return "(" + leanStr(pkg) + ", " + leanStr(opt) + ")"
 }
 
 var reUDPCh = regexp.MustCompile(`UDPCh$`)
